@@ -1197,6 +1197,80 @@ fn stage_plans(args: &Args, n: usize, tag: u64, c01: bool, c04: bool) -> Vec<Tas
     })
 }
 
+/// Input classes for the quality 0 / 1 FRAGMENT writers (`compress_fragment`, `compress_fragment_two_pass`):
+/// what matters there is one `compress_stream` call whose chunk is a single large fragment
+/// (the literal prefix code of a fragment is built from its first 96 KiB; blocks of 128 KiB are
+/// compressed or stored, and an expanding fragment is rewound and stored as a whole).
+///   0  skewed text-like first part (> 96 KiB), then the same distribution sprinkled with byte
+///      values that did not occur before
+///   1  a completed FLUSH (stream byte-aligned), then incompressible bytes in ONE chunk > 128 KiB
+///   2  compressible / incompressible alternation at 64 KiB granularity
+pub fn gen_fragment_reqs(rng: &mut Rng, class: u64, total: usize) -> Vec<Req> {
+    let mut reqs: Vec<Req> = vec![];
+    let mut data: Vec<u8> = Vec::with_capacity(total + 64);
+    match class {
+        0 => {
+            let alpha: Vec<u8> = match rng.below(3) { 0 => (b'a'..=b'p').collect(), 1 => b" etaoinshrdlu\n".to_vec(), _ => (0u8..24).collect() };
+            let first = (98304 + rng.range(1, 20000) as usize).min(total);
+            // skew: low indexes far more often
+            let pick = |rng: &mut Rng| -> u8 { let a = rng.below(alpha.len() as u64); let b = rng.below(alpha.len() as u64); alpha[((a * b) / alpha.len() as u64) as usize] };
+            for _ in 0..first { let b = pick(rng); data.push(b); }
+            let rare = rng.range(40, 400);
+            while data.len() < total {
+                if rng.chance(1, rare) { let mut b = rng.next() as u8; while alpha.contains(&b) { b = b.wrapping_add(37); } data.push(b); }
+                else { let b = pick(rng); data.push(b); }
+            }
+        }
+        1 => {
+            let pl = rng.range(1, 3000) as usize;
+            let pre = gen_bytes(rng, pl, 2);
+            reqs.push(Req { op: OP_FLUSH, data: pre });
+            for _ in 0..total { data.push(rng.next() as u8); }
+        }
+        _ => {
+            if rng.chance(1, 2) { let pl = rng.range(1, 500) as usize; reqs.push(Req { op: OP_FLUSH, data: gen_bytes(rng, pl, 2) }); }
+            let mut comp = rng.chance(1, 2);
+            while data.len() < total {
+                let seg = (65536 + rng.range(0, 64) as usize * if rng.chance(1, 2) { 1 } else { 0 }).min(total - data.len());
+                let style = if comp { *rng.pick(&[1u64, 2, 5, 6, 7]) } else { 0 };
+                let v = gen_bytes(rng, seg, style);
+                data.extend_from_slice(&v);
+                comp = !comp;
+            }
+        }
+    }
+    data.truncate(total);
+    reqs.push(Req { op: OP_PROCESS, data });
+    reqs.push(Req { op: OP_FINISH, data: vec![] });
+    reqs
+}
+
+/// quality 0 / 1, single PROCESS chunks of 100–400 KiB (see `gen_fragment_reqs`)
+fn stage_fragments(args: &Args, n: usize) -> Vec<TaskOut> {
+    let seed = args.seed;
+    par_tasks(n, move |i| {
+        let mut rng = Rng::new(seed ^ 0xF4A6 ^ ((i as u64) << 20));
+        let mut rep = Report::default();
+        let lines = vec![];
+        if skip_task(i) { return TaskOut { lines, rep }; }
+        set_task(format!("replay: BV_ONLY={} bvh stream c01 --seed {} (fragment stage)", i, seed));
+        let q = (i % 2) as u32;
+        let class = ((i / 2) % 3) as u64;
+        let lgwin = *rng.pick(&[18u32, 19, 20, 22, 24]);
+        let total = match class { 1 => rng.range(131073 + 2000, 400_000), _ => rng.range(100_000, 400_000) } as usize;
+        let mut cfg = simple_cfg(q, lgwin, false, false, 0);
+        match rng.below(3) { 0 => cfg.hint_exact = true, 1 => cfg.sets.push((5, 1 << 30)), _ => {} }
+        let reqs = gen_fragment_reqs(&mut rng, class, total);
+        let ro = drive(&cfg, &reqs, &OutSched::ample(), only().is_some());
+        dbg_history("fragment", &ro.sess);
+        rep.count(&format!("fragment_class{}", class));
+        rep.count("input_class_fragment");
+        rep.add("calls", ro.ncalls as u64);
+        judge_plan(&cfg, &ro, &mut rep, true, false);
+        TaskOut { lines, rep }
+    })
+}
+
 fn stage_pairs(args: &Args, n: usize) -> Vec<TaskOut> {
     let seed = args.seed;
     par_tasks(n, move |i| {
@@ -1537,7 +1611,7 @@ pub fn run_cmd(args: &Args) {
     let mut pre_lines = vec![];
     run_corpus(&mut rep, &mut pre_lines);
     let scale = if thorough { 12 } else { 1 };
-    if which == "c01" || which == "all" { outs.extend(stage_plans(args, 9000 * scale, 0xC01, true, false)); }
+    if which == "c01" || which == "all" { outs.extend(stage_plans(args, 9000 * scale, 0xC01, true, false)); outs.extend(stage_fragments(args, 24 * scale)); }
     if which == "c04" || which == "all" { outs.extend(stage_plans(args, 6000 * scale, 0xC04, true, true)); }
     if which == "c05" || which == "all" { outs.extend(stage_pairs(args, 3500 * scale)); outs.extend(stage_alloc_big(args)); }
     if which == "c20" || which == "all" {
